@@ -78,6 +78,17 @@ def bigFile (ver B ncell seed : Nat) (pos : List Nat) : Bytes :=
   let verts : Bytes := (List.range nnode).flatMap fun i =>
     let f := Float.ofNat i
     encF64 (f * 0.5).toBits ++ encF64 (f * 0.25).toBits ++ encF64 (-f).toBits ++ encInt ver 1
+  -- the distinct background records, encoded once: index a * B + b
+  let table : Array Bytes := ((List.range (B * B)).map fun k =>
+    let a := k / B
+    let b := k % B
+    encInt ver (a + 1) ++ encInt ver (b + 1) ++ encInt ver (1 + (a * B + b) % 7)).toArray
+  let bg (x : Nat) : Nat × Bytes :=
+    let x := (x * 1103515245 + 12345) % 2147483648
+    let a0 := (x / 256) % B
+    let b0 := (x / 65536) % B
+    let b0 := if a0 == b0 then (a0 + 1) % B else b0
+    (x, table.getD (min a0 b0 * B + max a0 b0) [])
   -- records, built in reverse
   let step (st : Nat × List Nat × Nat × List Bytes) (i : Nat) : Nat × List Nat × Nat × List Bytes :=
     let (x, ps, j, acc) := st
@@ -86,21 +97,11 @@ def bigFile (ver B ncell seed : Nat) (pos : List Nat) : Bytes :=
       if p == i then
         (x, rest, j + 1, (encInt ver (B + j + 1) ++ encInt ver ((7 * j) % B + 1) ++ encInt ver (100 + j)) :: acc)
       else
-        let x := (x * 1103515245 + 12345) % 2147483648
-        let a0 := (x / 256) % B
-        let b0 := (x / 65536) % B
-        let b0 := if a0 == b0 then (a0 + 1) % B else b0
-        let a := min a0 b0
-        let b := max a0 b0
-        (x, ps, j, (encInt ver (a + 1) ++ encInt ver (b + 1) ++ encInt ver (1 + (a * B + b) % 7)) :: acc)
+        let (x, r) := bg x
+        (x, ps, j, r :: acc)
     | [] =>
-      let x := (x * 1103515245 + 12345) % 2147483648
-      let a0 := (x / 256) % B
-      let b0 := (x / 65536) % B
-      let b0 := if a0 == b0 then (a0 + 1) % B else b0
-      let a := min a0 b0
-      let b := max a0 b0
-      (x, ps, j, (encInt ver (a + 1) ++ encInt ver (b + 1) ++ encInt ver (1 + (a * B + b) % 7)) :: acc)
+      let (x, r) := bg x
+      (x, ps, j, r :: acc)
   let recs := ((List.range ncell).foldl step (seed % 2147483648, pos, 0, [])).2.2.2
   le32 1 ++ le32 ver ++
   le32 3 ++ encPos ver at1 ++ le32 3 ++
@@ -114,8 +115,8 @@ def strictlyIncreasing : List Nat → Bool
 
 def step (line : String) : String :=
   match words line with
-  | ["part", np, hex] =>
-    if !isNat np then "bad-op" else
+  | "part" :: np :: hex :: tag =>
+    if !isNat np || tag.length > 1 then "bad-op" else
     match bytesOfHex? hex with
     | none => "bad-op"
     | some bs =>
@@ -130,7 +131,28 @@ def step (line : String) : String :=
     else fmtResult (partRead n (bigFile v bb nc seed.toNat! ps))
   | _ => "bad-op"
 
-def run (_args : List String) : IO UInt32 := do
+def timing : IO UInt32 := do
+  let t0 ← IO.monoMsNow
+  let bs := bigFile 2 6 1000003 7 [0, 5, 999999, 1000000, 1000001, 1000002]
+  IO.println s!"len {bs.length}"
+  let t1 ← IO.monoMsNow
+  IO.println s!"gen {t1 - t0} ms"
+  match parseWith Cfg.current 2 chunkConst bs with
+  | .error e => IO.println e.name
+  | .ok p =>
+    IO.println s!"groups {(p.groups.map (fun g => g.map List.length))}"
+    let t2 ← IO.monoMsNow
+    IO.println s!"parse {t2 - t1} ms"
+    match distribute 2 p with
+    | .error e => IO.println e.name
+    | .ok w =>
+      IO.println s!"{w.map fun st => st.cells.map List.length}"
+      let t3 ← IO.monoMsNow
+      IO.println s!"distribute {t3 - t2} ms"
+  return 0
+
+def run (args : List String) : IO UInt32 := do
+  if args == ["time"] then return (← timing)
   runLoop () fun _ line => ((), step line)
   return 0
 
